@@ -162,8 +162,7 @@ QUICK_SYNC = {   # sync queries per property in the quick tier (10-90 s each wit
     "s_contains0_ttl_deadline": {"C05", "C15"},
     "s_get0_tti_deadline": {"C06"},
     "s_contains1_tti_1ns_before": {"C06", "C15"},
-    "s_apply_reads_hit0": {"C06", "C08", "C12", "C14"},
-    "s_apply_reads_hit1_watermark": {"C07", "C12"},
+    "s_apply_reads_hit0": {"C14"},
     "s_apply_reads_miss": {"C14"},
     "s_contains_absent": {"C14", "C15"},
     "s_contains0_before_watermark": {"C07"},
@@ -182,6 +181,8 @@ QUICK_SYNC = {   # sync queries per property in the quick tier (10-90 s each wit
     "l_purge_one_ttl_deadline": {"C05", "C10", "C03"},
     "l_purge_one_tti_live": {"C06", "C03"},
     "l_purge_one_watermark": {"C07", "C10"},
+    "l_apply_reads_hit_n1": {"C03", "C07", "C06"},
+    "l_apply_reads_hit_n2_lru": {"C06", "C12", "C03"},
     "l_remove_n1": {"C10", "C11", "C07"},
     "l_remove_n2_mru": {"C07", "C08", "C10"},
     "s_upsert_update0": {"C10", "C12", "C06"},
@@ -226,6 +227,8 @@ def _sync():
             props |= {"C12", "C04", "C10", "C11"}; prim |= {"C12", "C04"}
         elif fn == "l_purge_one":
             props |= {"C10", "C03", "C05", "C06", "C07"}; prim |= {"C10", "C05" if ttl else "C06" if tti else "C07"}
+        elif fn == "l_apply_reads_hit":
+            props |= {"C03", "C07", "C06", "C12", "C05", "C10"}
         elif fn == "l_remove":
             props |= {"C07", "C10", "C11"}; prim |= {"C07", "C10", "C11"}
         elif fn == "s_handle_upsert":
@@ -245,7 +248,7 @@ def _sync():
             prim |= {"C08"}
         prim = set(QUICK_SYNC.get(name, ()))
         add("sync_base_cache.rs", name, props, "quick", 60, f"sync {fn[2:]}{rest} [{name}]", bs, quick=prim,
-            required=("admitted over victims", "newcomer rejected") if name.startswith("l_upsert_admission") else ())
+            required=("stale hit (recorded before the entry's last access)", "fresh hit") if name.startswith("l_apply_reads_hit") else ())
 _sync()
 add("sync_base_cache.rs", "s_k1_is_expired_wo", {"C05", "C07", "C08"}, "quick", 5, "sync is_expired_entry_wo <=> lm < valid_after or lm + ttl <= now", "all instants/durations symbolic, ns resolution")
 add("sync_base_cache.rs", "s_k1_is_expired_ao", {"C06", "C07", "C08"}, "quick", 5, "sync is_expired_entry_ao <=> la < valid_after or la + tti <= now", "all instants/durations symbolic, ns resolution")
